@@ -108,6 +108,18 @@ Proof.
   destruct Hp as (_ & _ & _ & ((_ & G) & _)). split; [exact (g_exact _ _ G)|exact (g_uniq _ _ G)].
 Qed.
 
+(* C02 / C05: over a whole run, every command that parked event data was set up exactly once — by the run it caused or
+   by the abort path (cleanup_on_abort) when its target had vanished; none is lost and none is set up twice.  Setup is
+   followed by cleanup in both paths (IRun, IAbort), which is where the payload's reader count is decremented. *)
+Theorem every_parked_command_is_set_up_exactly_once fuel w' : run P fuel = Ok w' ->
+  Permutation (ptickets (g_prep w')) (ctickets (g_claim w')) /\ NoDup (ctickets (g_claim w')).
+Proof.
+  intros E. unfold run in E. destruct (init_invcore P) as (HI & HC & HB).
+  pose proof (tops_invariant fuel (p_top P) 0 _ HI HC HB init_TI) as Hp. rewrite E in Hp.
+  destruct Hp as (_ & _ & HB' & ((_ & G) & _)). pose proof (g_part _ _ G) as HP. rewrite HB' in HP. cbn [app flat_map] in HP. rewrite app_nil_r in HP.
+  split; [exact HP|]. eapply Permutation_NoDup; [exact HP|exact (g_uniq _ _ G)].
+Qed.
+
 Ltac bind_inv E w1 E1 :=
   match type of E with
   | bind ?r _ = Ok _ => destruct r as [w1| |] eqn:E1; cbn [bind] in E; [|discriminate E|discriminate E]
